@@ -115,6 +115,19 @@ def check_residual(chk, prog, f):
     others_ok = all(a == ("param", 1, ("matches",)) or (a[0] == "call" and a[1] in ("alloc::vec::Vec::new",)) for a in ret)
     chk.judge(has_orig and others_ok, R, "egglog::scheduler::Matches::instantiate:returns",
               "returns self.matches (after removal) or an empty vector", f"instantiate returns {fmt_atoms(ret)}", inst.loc)
+    # an empty residual may only be returned when the scheduler chose everything (all_chosen)
+    empties = [c for c in inst.calls if c.dest == [0, []] and c.p in ("alloc::vec::Vec::new", "alloc::vec::Vec::with_capacity")]
+    ok_e = True
+    for c in empties:
+        g_ok = False
+        for g in guards(inst, c.bb):
+            if g.get("truth") is True and g["desc"][0] == "val":
+                if any(a[0] == "param" and a[1] == 1 and a[2] == ("all_chosen",) for a in inst.origins(g["desc"][1])):
+                    g_ok = True
+        ok_e = ok_e and g_ok
+    chk.judge(ok_e and bool(empties), R, "egglog::scheduler::Matches::instantiate:empty-only-if-all-chosen",
+              "an empty residual is returned only under all_chosen",
+              "instantiate can return an empty residual although not every match was chosen (all_chosen is false): unchosen matches are dropped", inst.loc)
     sorts = [c for c in inst.calls if c.p.endswith("]::sort_unstable") or c.p.endswith("]::sort")]
     dedups = [c for c in inst.calls if c.p == "alloc::vec::Vec::dedup"]
 
